@@ -25,7 +25,7 @@ from .. import narrow as nw
 from .. import narrow_pen as npn
 
 PID = "C08"
-PROOF_FILES = ["theories/Props/C08.v", "theories/Checker/PenMpr.v", "theories/Checker/Pen.v", "theories/Checker/Narrow.v",
+PROOF_FILES = ["theories/Props/C08.v", "theories/Proofs/Mpr.v", "theories/Checker/PenMpr.v", "theories/Checker/Pen.v", "theories/Checker/Narrow.v",
                "theories/Checker/Shapes.v", "theories/Spec/Convex.v"]
 EPS_DIR = Fr(1, 10 ** 9)
 
@@ -101,8 +101,13 @@ def prepare(arg):
             extra = extra + [u]
         depth_or, n_or = npn.min_extent(s1, s2, extra_dirs=extra, DH=DH)
         ov_or, n_ov = npn.min_extent(s1, s2m, extra_dirs=extra)
-        n1 = u if ulen > 0.5 else n_ov
-        n2 = u if ulen > 0.5 else n_or
+        n1, n2 = n_ov, n_or
+        if ulen > 0.5:
+            uu = np.array(u) / ulen
+            if npn.extent(s1, s2m, uu) <= ov_or:
+                n1 = u
+            if npn.extent(s1, s2, uu) <= depth_or:
+                n2 = u
         dA, qa = point_dist(s1, pos)
         dB, qb = point_dist(s2, pos)
         wa, wb = nw.wit_expr(s1, qa), nw.wit_expr(s2, qb)
@@ -151,7 +156,8 @@ def run(tier, seed, replay=None):
         "certificate exists, that certificate is evaluated and reported); rejected-but-unconfirmed results are counted as ambiguous",
         "a collider's point set is the exact shape expression of the floats handed to its constructor (harness/narrow.py parts() is trusted for that translation)",
     ]
-    R.check_proofs(PROOF_FILES)
+    R.check_proofs(PROOF_FILES, build_targets=["theories/Props/C08.vo", "theories/Checker/PenMpr.vo", "theories/Checker/Pen.vo",
+                                               "theories/Checker/Deep.vo", "theories/Checker/Narrow.vo"])
     cases = []
     corpus = cm.VERIF / "corpus" / PID
     if replay:
@@ -162,9 +168,7 @@ def run(tier, seed, replay=None):
                 cases.append(json.loads(f.read_text())["case"])
         n = 320 if tier == "quick" else 3000
         seeds = [(R.rng.getrandbits(64), tier, k) for k in range(n)]
-        import multiprocessing as mp
-        with mp.get_context("fork").Pool(cm.NCPU) as pool:
-            cases += pool.map(make_case_seeded, seeds, chunksize=4)
+        cases += npn.par_map(PID, "c08", "make_case_seeded", seeds, tag="gen")
     for c in cases:
         c.pop("result", None)
     results = [rr[0] for rr in npn.run_cases(PID, cases)]
@@ -193,9 +197,11 @@ def run(tier, seed, replay=None):
         else:
             bump(outcome, "no_intersection")
         to_judge.append((i, c, r))
-    import multiprocessing as mp
-    with mp.get_context("fork").Pool(min(cm.NCPU, max(1, len(to_judge)))) as pool:
-        prepared = pool.map(prepare, to_judge, chunksize=4) if to_judge else []
+    try:
+        prepared = npn.par_map(PID, "c08", "prepare", to_judge)
+    except RuntimeError as e:
+        R.corr_broken.append(str(e)[:400])
+        prepared = []
     judged = {}
     exprs, slots = [], []
     for pz in prepared:
